@@ -5,6 +5,7 @@
    snapshot file: line feeds become CR LF — all of them, or every second one (mixed endings).
    The model computes the conversion itself from ITS file contents. -/
 import GoSnaps.Driver
+import GoSnaps.Json
 namespace GoSnaps
 
 def crlfAll (t : Text) : Text := t.flatMap (fun c => if c = nl then [cr, nl] else [c])
@@ -14,8 +15,24 @@ def crlfAlt : Text → Bool → Text
   | [], _ => []
   | c :: cs, b => if c = nl then (if b then [cr, nl] else [nl]) ++ crlfAlt cs (!b) else c :: crlfAlt cs b
 
+/-- `jsonfmt <hex doc> <sortKeys 0|1> <hex indent> <width>`: the JSON model on its own (C14 tier B) —
+`valid` = the model of `gjson.Valid`, `parse` = whether the structural parser accepts the
+document (must agree with `valid`), `out` = the model of `pretty.PrettyOptions` (valid input only) -/
+def jsonfmtOp (doc sk ind width : String) : Option String :=
+  match unhex doc, unhex ind, width.toInt? with
+  | some d, some i, some w =>
+    let v := Json.jsonValid d
+    let p := (Json.parse d).isSome
+    let out := if v then Json.pretty { width := w, indent := i, sortKeys := sk = "1" } d else []
+    some ("jsonfmt valid=" ++ (if v then "1" else "0") ++ " parse=" ++ (if p then "1" else "0") ++ " out=" ++ hexOf out)
+  | _, _, _ => none
+
 def stepX (s : DState) (line : String) : DState × Option String :=
   match (line.splitOn " ").filter (· ≠ "") with
+  | ["jsonfmt", doc, sk, ind, width] =>
+    match jsonfmtOp doc sk ind width with
+    | some r => (s, some r)
+    | none => bad s line
   | ["fscrlf", mode, p] =>
     match unhex p with
     | some p =>
@@ -32,5 +49,13 @@ def stepX (s : DState) (line : String) : DState × Option String :=
     | some p, some c => ({ s with w := { s.w with fs := fsWrite s.w.fs p c } }, none)
     | _, _ => bad s line
   | _ => step s line
+
+/-- `stepX` never changes the state on a `jsonfmt` line -/
+theorem stepX_jsonfmt_state (s : DState) (line doc sk ind width : String)
+    (h : (line.splitOn " ").filter (· ≠ "") = ["jsonfmt", doc, sk, ind, width]) : (stepX s line).1 = s := by
+  unfold stepX
+  rw [h]
+  simp only
+  cases jsonfmtOp doc sk ind width <;> rfl
 
 end GoSnaps
